@@ -49,7 +49,7 @@ a vertex; and, its two counts being printable, the strict reader applied to the 
 theorem k2p_end_to_end (env : Env) (argv : List String) (d : Dest) (t : IO.Str)
     (h : k2pRun env argv = some (.ok d t)) :
     ∃ st s u n D,
-      parse k2pSpec (act env) argv {} = .ok st ∧ inputOf env st = some (.text s, u, n) ∧
+      parse k2pSpec (act env) argv {} = .ok st ∧ inputOf env st = (.text s, u, n) ∧
       C18.readDag u s = .ok (.di D) ∧ TopoDAG D ∧
       (∀ x ∈ GraphFmt.kthPairs (GraphLex.lexKth (if u then GraphLex.universalNL s else s)), x.1 < x.2) ∧
       pebbling D = .ok (peb D) ∧
@@ -98,7 +98,7 @@ theorem k2p_writes_what_peb_builds (env : Env) (argv : List String) (d : Dest) (
     (h : k2pRun env argv = some (.ok d t)) :
     (Cli.pebTemplates.length = 1 ∧ Cli.k2pTemplates.length = 1 ∧
       (Cli.pebTemplates.all (fun a => Cli.k2pTemplates.all (Cli.sameCallShape a))) = true) ∧
-    ∃ st s u n D F, inputOf env st = some (.text s, u, n) ∧ C18.readDag u s = .ok (.di D) ∧
+    ∃ st s u n D F, inputOf env st = (.text s, u, n) ∧ C18.readDag u s = .ok (.di D) ∧
       pebbling D = .ok F ∧
       t = renderDimacsText F.toCNF (if st.verbose then some (toIOHeader (C18.k2pHdr env u s)) else none) none := by
   refine ⟨kthlist2pebbling_is_peb, ?_⟩
@@ -108,12 +108,11 @@ theorem k2p_writes_what_peb_builds (env : Env) (argv : List String) (d : Dest) (
 /-- T-C14.3 at tool level: a kthlist text in which some listed predecessor is NOT smaller than its vertex (not a DAG in
 increasing order) never produces a formula — the run reads it and ends in the reported error (prefix `c `) -/
 theorem k2p_refuses_non_increasing (env : Env) (st : Args) (s : IO.Str) (u : Bool) (n : String)
-    (hi : inputOf env st = some (.text s, u, n))
+    (hi : inputOf env st = (.text s, u, n))
     (hbad : ∃ x ∈ GraphFmt.kthPairs (GraphLex.lexKth (if u then GraphLex.universalNL s else s)), ¬ x.1 < x.2) :
     k2pBody env st = .cliError .reader "c " := by
-  rcases C18.k2pBody_cases env st with ⟨hn, _⟩ | ⟨u', n', hi', _⟩ | ⟨u', n', hi', _⟩ | ⟨s', u', n', hi', _, hb⟩ |
+  rcases C18.k2pBody_cases env st with ⟨u', n', hi', _⟩ | ⟨u', n', hi', _⟩ | ⟨s', u', n', hi', _, hb⟩ |
       ⟨s', u', n', D, hi', hr, _, _, _⟩
-  · unfold inputOf at hi; rw [hn] at hi; cases hi
   · rw [hi] at hi'; cases hi'
   · rw [hi] at hi'; cases hi'
   · exact hb
@@ -125,7 +124,7 @@ theorem k2p_refuses_non_increasing (env : Env) (st : Args) (s : IO.Str) (u : Boo
 /-- … stated on the process: whenever the parse succeeds and the text named has a non-increasing edge -/
 theorem k2p_non_dag_is_cliError (env : Env) (argv : List String) (st : Args)
     (hp : parse k2pSpec (act env) argv {} = .ok st) (s : IO.Str) (u : Bool) (n : String)
-    (hi : inputOf env st = some (.text s, u, n))
+    (hi : inputOf env st = (.text s, u, n))
     (hbad : ∃ x ∈ GraphFmt.kthPairs (GraphLex.lexKth (if u then GraphLex.universalNL s else s)), ¬ x.1 < x.2) :
     k2pRun env argv = some (.cliError .reader "c ") := by
   unfold k2pRun
@@ -138,7 +137,7 @@ theorem k2p_non_dag_is_cliError (env : Env) (argv : List String) (st : Args)
 def k2pFrom (env : Env) (st0 : Args) (argv : List String) : Option Cli.Tools.Outcome :=
   match parse k2pSpec (act env) argv st0 with
   | .error .help => some .help
-  | .error .error => some (.cliError .parser "")
+  | .error .error => some (.cliError .parser "c ")
   | .error (.sub _ _ _ _) => none
   | .ok st => some (k2pBody env st)
 
@@ -163,7 +162,7 @@ otherwise the rest of the line is processed with that file as the input -/
 theorem k2p_input_token (env : Env) (st0 : Args) (f : String) (hf : f.toList.head? ≠ some '-') (argv : List String) :
     k2pFrom env st0 ("-i" :: f :: argv) =
       if st0.opened.contains f || (env.file f).isSome then k2pFrom env { st0 with input := .file f } argv
-      else some (.cliError .parser "") := by
+      else some (.cliError .parser "c ") := by
   have hne : f ≠ "-" := by intro h; rw [h] at hf; simp at hf
   unfold k2pFrom
   rw [parse_one_head k2pSpec (act env) "-i" f ⟨"input", ["--input", "-i"], .one⟩ '-' ['i'] rfl rfl (by decide)
@@ -188,6 +187,6 @@ example : (match C18.readDag true "3\r\n1 : 0\r\n2 : 0\r\n3 : 1 2 0\r\n".toList 
 example : ∃ x ∈ GraphFmt.kthPairs (GraphLex.lexKth "2\n1 : 2 0\n2 : 0\n".toList), ¬ x.1 < x.2 :=
   ⟨(2, 1), by decide +kernel, by decide⟩
 
-example : k2pRun (C18.demoEnv (.text "2\n".toList)) ["-i", "missing"] = some (.cliError .parser "") := by decide +kernel
+example : k2pRun (C18.demoEnv (.text "2\n".toList)) ["-i", "missing"] = some (.cliError .parser "c ") := by decide +kernel
 
 end Cnfgen.C17
